@@ -191,6 +191,85 @@ def h_states(ctx, pre, event):
         ctx.observe("state", ch.readyState)
 
 
+KINDS = ["reliable", "rexmit", "timed", "unordered"]
+
+
+def h_flush_params(ctx, n):
+    """_data_channel_flush hands every queued message to _send with the reliability of *its own*
+    channel: DCEP control messages always reliable and ordered; a data message never inherits the
+    lifetime / retransmission limit / ordering of a neighbour flushed in the same call."""
+    with Env(crc=_crc()) as env:
+        t = env.transport("controlling", established=True, local_tsn=100, remote_tsn=200, vtag=1, rtag=2)
+        sends = []
+
+        async def rec(stream_id, pp_id, user_data, expiry=None, max_retransmits=None, ordered=True):
+            sends.append((stream_id, pp_id, expiry, max_retransmits, ordered))
+
+        t._send = rec
+        chans = []
+        for i in range(n):
+            kind = ctx.choice("kind%d" % i, KINDS)
+            kw = {"rexmit": {"maxRetransmits": 2}, "timed": {"maxPacketLifeTime": 500}, "unordered": {"ordered": False}}.get(kind, {})
+            ch = RTCDataChannel(t, RTCDataChannelParameters(label="c%d" % i, id=2 * i, negotiated=True, **kw))
+            chans.append(ch)
+        env.drain()
+        del sends[:]
+        msgs = []
+        for j in range(n):
+            i = ctx.choice("msg%d_channel" % j, list(range(n)))
+            dcep = ctx.choice("msg%d_dcep" % j, [False, True])
+            t._data_channel_queue.append((chans[i], 50 if dcep else 53, b"m"))
+            if not dcep:
+                chans[i]._addBufferedAmount(1)
+            msgs.append((i, dcep))
+        sx.run(t._data_channel_flush())
+        ctx.reach("flushed")
+        ctx.check(len(sends) == len(msgs), "every-queued-message-is-sent")
+        for (i, dcep), (sid, ppid, expiry, mr, ordered) in zip(msgs, sends):
+            ch = chans[i]
+            ctx.check(sid == ch.id and ppid == (50 if dcep else 53), "message-goes-out-on-its-own-stream")
+            if dcep:
+                ctx.check(expiry is None and mr is None and ordered is True, "dcep-control-messages-are-reliable-and-ordered", "channel %d: expiry=%r max_retransmits=%r ordered=%r" % (i, expiry, mr, ordered))
+            else:
+                ctx.check((expiry is None) == (ch.maxPacketLifeTime is None) and mr == ch.maxRetransmits and ordered == ch.ordered, "data-message-uses-its-own-channel-reliability", "channel %d: expiry=%r max_retransmits=%r ordered=%r" % (i, expiry, mr, ordered))
+        ctx.observe("n", len(sends))
+
+
+def h_close_early(ctx, negotiated):
+    """close() before the association is up, on a channel with an explicit id (any id, 0 included):
+    the channel is closed for good, its id is free for a new channel at once, and establishment
+    later opens the new channel only."""
+    with Env(crc=_crc()) as env:
+        t = env.transport("controlling", established=False, local_tsn=100, remote_tsn=200, vtag=1, rtag=2)
+        t._last_received_tsn = 199
+        t._RTCSctpTransport__started = True
+        cid = ctx.int("cid", 0, 65534)
+        old = RTCDataChannel(t, RTCDataChannelParameters(label="old", id=cid, negotiated=negotiated))
+        opens, closes = [], []
+        old.on("open", lambda: opens.append(1))
+        old.on("close", lambda: closes.append(1))
+        env.drain()
+        old.close()
+        env.drain()
+        ctx.reach("closed-early")
+        ctx.check(old.readyState == "closed", "closed-before-establishment-is-closed")
+        ctx.check(all(c is not old for c in t._data_channels.values()), "closed-channel-frees-its-id")
+        new = RTCDataChannel(t, RTCDataChannelParameters(label="new", id=cid, negotiated=negotiated))  # must not raise
+        env.drain()
+        t._set_state(State.ESTABLISHED)
+        env.drain()
+        ctx.check(old.readyState == "closed" and opens == [] and len(closes) == 1, "readyState-only-moves-forward")
+        try:
+            old.send(b"x")
+            ctx.fail("send-accepted-on-a-closed-channel")
+        except sctp.InvalidStateError:
+            pass
+        ctx.check(new.readyState in ("connecting", "open"), "id-reused-by-a-new-channel")
+        if negotiated:
+            ctx.check(new.readyState == "open", "negotiated-channel-opens-with-the-association")
+        ctx.observe("state", new.readyState)
+
+
 def h_close_both(ctx, when):
     """close() at any moment closes both ends and frees the id for reuse."""
     with Env(crc=_crc()) as env:
@@ -368,6 +447,8 @@ def _open_jobs(tier):
 HARNESSES = {
     "open": Harness("open", h_open, _open_jobs, style="RT", bounds="label and protocol of 0..2 code points each over full Unicode (surrogates excluded), reliable / maxRetransmits / maxPacketLifeTime (16-bit symbolic), ordered or not, automatic or explicit symbolic id", encoded=ENC, stubs=STUBS, twin="open-delivered"),
     "ids": Harness("ids", h_ids, lambda tier: [{"role": r, "nexisting": n} for r in ("controlling", "controlled") for n in (0, 1, 2, 3)], style="STEP", bounds="<=3 existing channels with symbolic distinct ids 0..12, both roles", encoded=ENC, stubs=STUBS, twin="id-allocated"),
+    "flush-params": Harness("flush-params", h_flush_params, lambda tier: [{"n": n} for n in ((2,) if tier == "quick" else (2, 3))], style="BMC over configurations", bounds="2 (quick) / 3 negotiated channels of solver-chosen kind {reliable, maxRetransmits, maxPacketLifeTime, unordered}; 2 / 3 queued messages (DCEP or data, solver-chosen channel) flushed in one call", encoded=ENC + ["aiortc.rtcsctptransport:RTCSctpTransport._data_channel_flush"], stubs=STUBS + ["RTCSctpTransport._send -> recorder"], twin="flushed", opts={"samples": 1}),
+    "close-early": Harness("close-early", h_close_early, lambda tier: [{"negotiated": n} for n in (True, False)], style="STEP", bounds="one channel with an explicit symbolic id 0..65534 (negotiated or in-band) closed before the association is established, the id re-used at once, then establishment", encoded=ENC, stubs=STUBS, twin="closed-early", opts={"samples": 1}),
     "states": Harness("states", h_states, lambda tier: [{"pre": p, "event": e} for p in PRE for e in EVENTS], style="STEP", bounds="6 abstract pre-states x 7 events; channel id, DCEP message byte, stream ids and sequence numbers of the RE-CONFIG parameters symbolic (the solver decides whether they match the channel / the pending request)", encoded=ENC, stubs=STUBS, twin="event-processed"),
     "close-both": Harness("close-both", h_close_both, lambda tier: [{"when": w} for w in ("immediately", "after-open")], style="RT", bounds="close() immediately after create and after open, two transports exchanging real datagrams", encoded=ENC, stubs=STUBS, twin="close-exchanged"),
     "close-many": Harness("close-many", h_close_many, lambda tier: [{"n": n, "gap": g} for n in ((2, 3) if tier == "quick" else (2, 3, 4)) for g in ("after-request", "after-response")], style="BMC", bounds="2..3 (4) channels closed one after the other (first one solver-chosen) while the previous stream reset request is still unanswered or just answered; real RE-CONFIG datagrams between two transports", encoded=ENC, stubs=STUBS, twin="many-closed"),
